@@ -165,11 +165,30 @@ Section Loop.
       do r <- edge_cross_count L point d ray a b;
       if fst r then Ok (true, acc) else count_crossings L point d ray tl first (Nat.add acc (snd r))
     end.
+  (** the cast segment of [test_point] since fix 6f318c4: direction away from the midpoint of the first stored edge (as
+      before), length max (2 * distance from the point to the farthest vertex, 1000), so that it always leaves the loop.
+      [reach] is accumulated with Rust's NaN-ignoring [f64::max] from 0. *)
+  Definition loop_reach (L : Loop) (point : V) : K :=
+    fold_left (fun acc v => fmax acc (vlen (vsub v point))) (verts L) n0.
+  Definition loop_ray (L : Loop) (point : V) : V :=
+    let dir := vsub point (vscale (vadd (vnth (verts L) O) (vnth (verts L) (S O))) nhalf) in
+    vscale dir (fmax (n2 * loop_reach L point) (nofZ 1000) / vlen dir).
+  (** [test_point] with the cast segment as a parameter (shared by the live code and by Model/PinnedLoop.v) *)
+  Definition loop_test_point_gen (rayf : Loop -> V -> V) (L : Loop) (point : V) : res bool :=
+    if negb (lclosed L) then Err 34%N else
+    do cop <- loop_is_coplanar L point;
+    if negb cop then Ok false else
+    let d := rayf L point in
+    let ray := seg_new point (vadd point d) in
+    do r <- count_crossings L point d ray (verts L) (vnth (verts L) O) O;
+    if fst r then Ok true else Ok (negb (Nat.eqb (snd r) O) && Nat.odd (snd r)).
   Definition loop_test_point (L : Loop) (point : V) : res bool :=
     if negb (lclosed L) then Err 34%N else
     do cop <- loop_is_coplanar L point;
     if negb cop then Ok false else
-    let d := vscale (vsub point (vscale (vadd (vnth (verts L) O) (vnth (verts L) (S O))) nhalf)) (nofZ 1000) in
+    let dir := vsub point (vscale (vadd (vnth (verts L) O) (vnth (verts L) (S O))) nhalf) in
+    let reach := fold_left (fun acc v => fmax acc (vlen (vsub v point))) (verts L) n0 in
+    let d := vscale dir (fmax (n2 * reach) (nofZ 1000) / vlen dir) in
     let ray := seg_new point (vadd point d) in
     do r <- count_crossings L point d ray (verts L) (vnth (verts L) O) O;
     if fst r then Ok true else Ok (negb (Nat.eqb (snd r) O) && Nat.odd (snd r)).
